@@ -23,6 +23,11 @@ EXPLANATION = (
     "Each violation names the raising site and the call chain from the entry point. Additionally the constructors of "
     "both range classes are interpreted on every abstract token sequence: every sequence must end in acceptance or "
     "InterfaceError (this catches unbound locals and other internal errors on malformed descriptions)."
+    " Added in rounds 6 and 7: (O10.none) no value that may be None by construction reaches a parameter its callee"
+    " asserts to be not None. (O10.count) a DistinctCount rule cannot call exit() (SystemExit is no Exception)."
+    " next(x) counts as raising StopIteration unless x is a token stream of the same function; the tokenizer's"
+    " UnicodeEncodeError / SystemError and the plain UnicodeError of exotic codecs when writing are in the raiser"
+    " table."
 )
 TRUSTED = ["cpsa/tables/raisers.py (external raisers) and cpsa/tables/asserts.py (assert triage), each line with its reason"]
 ASSUMPTIONS = [
